@@ -37,12 +37,13 @@ func envInt(k string, def int) int {
 	return def
 }
 
-// samplePath is a seeded random walk over the accepted edges of the specification's graph (block ends
+// samplePath is a seeded random walk over the accepted edges of the (possibly partial: TLC simulation)
+// graph of the specification (block ends
 // are taken with weight 3 so that objects age beyond the signed window on most paths).
 func samplePath(g *graph.Graph, rng *rand.Rand, maxLen int) []*graph.Edge {
 	var path []*graph.Edge
 	state := g.Init
-	for len(path) < maxLen && g.Expanded[state] {
+	for len(path) < maxLen {
 		var cand []*graph.Edge
 		for _, e := range g.Out[state] {
 			if e.Op.Res() != "ok" {
